@@ -108,7 +108,7 @@ Fixpoint in_item (i : item) : list string :=
   | Opt j => in_item j
   | Repeat0 _ j | Repeat1 _ j => in_item j
   | Gather _ _ e => in_item e                   (* Repeat.initial_names: self.node *)
-  | PosLook _ | NegLook _ => []
+  | PosLook j | NegLook j => in_item j         (* Lookahead.initial_names: the operand is tried at the same position *)
   | Forced j => in_item j
   | Cut => []
   | RhsItem r => in_rhs r
